@@ -245,11 +245,11 @@ class Sim:
         pool = sorted(self.done[q] | self.failed[q])
         if not pool:
             return False
-        # prefer the rarer kinds
-        apps = [l for l in pool if self.msgs[l]["kind"].startswith("(KApplication")]
-        kbs = [l for l in pool if self.msgs[l]["kind"].startswith("(KKeyBundle")]
-        r = rng.random()
-        label = rng.choice(apps) if (apps and r < 0.3) else rng.choice(kbs) if (kbs and r < 0.45) else rng.choice(pool)
+        # pick the message kind first so that the four kinds are re-delivered about equally often
+        by_kind = {}
+        for l in pool:
+            by_kind.setdefault(self.msgs[l]["kind"].split()[0], []).append(l)
+        label = rng.choice(by_kind[rng.choice(sorted(by_kind))])
         self.deliver(q, label)
         return True
 
@@ -582,11 +582,9 @@ def coq_oracle(case, impl):
         if k >= len(case["dl"]):
             return "false"
         d = case["dl"][k]
-        if t.startswith("X:"):
-            # a panic outside message processing (local API) is still a panic of a step of the case
-            obs.append("Ob 0 0 2 0 false")
-            continue
-        if d is None or t == "D:?":
+        if d is None or t == "D:?" or t.startswith("X:"):
+            # a panic in a local API step is outside the property (it is about processing
+            # messages); it shows up as a disagreement with the expected `L:n` token instead
             continue
         parts = t.split(":")
         if len(parts) != 4:
